@@ -152,7 +152,11 @@ Fixpoint all_conn_service (cs : conns) (orc : list sres) : conns * list sres :=
     let '(cs'', o'') := all_conn_service cs' o' in ((k, c') :: cs'', o'')
   end.
 
-Inductive sop := SEnq (p : bytes) (ca : Z) | SSvcStack | SSvcConns (orc : list sres).
+(* SDrop ca: the connection is closed and removed from handler.ixes (TcpServerStack.closeConnection
+   after a cut off or an idle timeout) *)
+Inductive sop := SEnq (p : bytes) (ca : Z) | SSvcStack | SSvcConns (orc : list sres) | SDrop (ca : Z).
+
+Definition drop (ca : Z) (cs : conns) : conns := filter (fun kc => negb (Z.eqb (fst kc) ca)) cs.
 
 Definition unres {A} (r : res A) : A := match r with Ok a => a | ErrValue a => a end.
 
@@ -161,7 +165,15 @@ Definition s_step (s : sst) (o : sop) : sst :=
   | SEnq p ca => mkS (stxq s ++ [(p, ca)]) (sconns s) (squeued s ++ [(p, ca)])
   | SSvcStack => unres (s_service_tx s)
   | SSvcConns orc => mkS (stxq s) (fst (all_conn_service (sconns s) orc)) (squeued s)
+  | SDrop ca => mkS (stxq s) (drop ca (sconns s)) (squeued s)
   end.
+
+(* packets of the stack queue whose destination is not (or no longer) a connection *)
+Definition unknowns (q : list (bytes * Z)) (cs : conns) : nat :=
+  length (filter (fun x => match get (snd x) cs with None => true | Some _ => false end) q).
+Definition stack_pass (s : sst) : sst := unres (s_service_tx s).
+Fixpoint stack_passes (n : nat) (s : sst) : sst :=
+  match n with O => s | S n' => stack_passes n' (stack_pass s) end.
 
 Definition s_init (cas : list Z) : sst := mkS [] (map (fun ca => (ca, mkConn [] [] false)) cas) [].
 Definition s_run (cas : list Z) (ops : list sop) : sst := fold_left s_step ops (s_init cas).
